@@ -177,7 +177,7 @@ fn main() {
             cr
         }));
         // ---- sampled: larger sessions, multi-packet RS/NoCode-protected FDT, threshold-biased loss
-        let n_s = ctx.tier.pick(8000usize, 200_000);
+        let n_s = ctx.tier.pick(8000usize, 1_000_000);
         gens.push(Gen::new("sampled_threshold", n_s, move |ctx, i| {
             let mut rng = Rng::keyed(ctx.seed, "C02s", 0, i as u64);
             let o = gen::GenOpts { cenc: i % 4 == 0, max_objects: 3, max_symbols: 40, sources: false, transfers_max: 2, realistic_every: 0, ..Default::default() };
